@@ -55,13 +55,15 @@ def p_event(cls, src, st, idx, mark=None):
     k = "%d%s%02d" % (src, st, idx)
     extra = ""
     if mark:
-        extra = ',"%s":"1"' % mark
+        extra = ',"%s":"%s"' % (tuple(mark.split("=")) if "=" in mark else (mark, "1"))
     if cls == "NF":
         return k, None, '{"msg":"x","stream":"%s","k":"%s"%s}' % (st, k, extra)
     if cls == "NS":
         v = "7%d%s%02d00" % (src, ST_CODE[st], idx)
         return k, v, '{"log":%s,"stream":"%s","k":"%s"%s}' % (v, st, k, extra)
-    letter = {"S1": "S", "C1": "C", "O": "O", "D": "O", "B": "O"}[cls]
+    if cls == "XN":
+        return k, None, '{"msg":"x","stream":"%s","k":"%s"%s}' % (st, k, extra)
+    letter = {"S1": "S", "C1": "C", "O": "O", "D": "O", "B": "O", "XO": "O"}[cls]
     v = "%s%s|\n" % (letter, k)
     assert len(v) == PW
     return k, v, '{"log":"%s%s|\\n","stream":"%s","k":"%s"%s}' % (letter, k, st, k, extra)
@@ -72,7 +74,7 @@ def make_scenarios(ctx, groups, n, first_id=0):
     scs = []
     for i in range(n):
         r = rng.random()
-        pre = "none" if r < 0.5 else ("discard" if r < 0.82 else "break")
+        pre = "none" if r < 0.4 else ("discard" if r < 0.62 else ("break" if r < 0.72 else "sel"))
         neg = rng.random() < 0.35
         Ms = sorted({k[2] for k in groups if k[0] == pre})
         M = rng.choice(Ms)
@@ -87,6 +89,10 @@ def make_scenarios(ctx, groups, n, first_id=0):
             # with D5 a processor stays parked on the stream whose run is not flushed; a single processor would
             # starve the other streams (that is C04's business), so one stream then
             nstreams = 1 if procs == 1 else rng.choice([1, 2, 3, 4])
+        elif pre == "sel":
+            chain = rng.choice(["seljoin-mf", "seljoin-doif"])
+            procs = rng.choice([1, 1, 2, 4])
+            nstreams = rng.choice([2, 3, 4])
         else:
             chain = "break+join"
             # one processor and one stream: the outcome is the transcription's; a few concurrent ones on top
@@ -110,13 +116,16 @@ def make_scenarios(ctx, groups, n, first_id=0):
                     mark = "drop"
                 elif cls == "B":
                     mark = "brk"
+                elif chain.startswith("seljoin"):
+                    mark = "kind=other" if cls in ("XO", "XN") else "kind=multi"
                 elif chain == "join+discard" and cls in ("O", "NF") and rng.random() < 0.4:
                     mark = "drop"
                 marks.append(mark)
                 evs.append(p_event(cls, src, st, idx, mark)[2])
             stalls = [p for p in c["to"] if p < len(c["seq"])]
             streams.append({"src": src, "name": st, "events": evs, "stalls": stalls,
-                            "seq": c["seq"], "marks": marks, "planned_to": c["to"]})
+                            "seq": c["seq"], "marks": marks, "planned_to": c["to"],
+                            "delay_ms": rng.choice([0, 0, 0, 40, 80]) if pre == "sel" else 0})
         limit = 0 if M == 0 else M * PW - rng.randrange(PW)
         scs.append({"id": first_id + i, "chain": chain, "pre": pre, "procs": procs, "timeout_ms": rng.choice([10, 20, 30]),
                     "limit": limit, "M": M, "neg": neg, "wait_ms": WAIT_MS, "streams": streams})
@@ -125,14 +134,28 @@ def make_scenarios(ctx, groups, n, first_id=0):
 
 def directed_scenarios(first_id):
     """The minimal histories of DESIGN.md section 8 for D5 and D15, always run."""
-    def stream(seq, src=1, st="a"):
+    def stream(seq, src=1, st="a", sel=False, delay=0):
         evs, marks = [], []
         for idx, cls in enumerate(seq, 1):
             mark = {"D": "drop", "B": "brk"}.get(cls)
+            if sel:
+                mark = "kind=other" if cls in ("XO", "XN") else "kind=multi"
             marks.append(mark)
             evs.append(p_event(cls, src, st, idx, mark)[2])
-        return {"src": src, "name": st, "events": evs, "stalls": [], "seq": seq, "marks": marks, "planned_to": []}
+        return {"src": src, "name": st, "events": evs, "stalls": [], "seq": seq, "marks": marks, "planned_to": [],
+                "delay_ms": delay}
     out = []
+    # the distinguishing histories of the spec mutant M_BusyIgnoresSelector = FALSE (Join_mutsel.cfg): an event that does not
+    # satisfy the join's selector arrives inside an open run; one source, and a second source after the first has drained
+    for j, (chain, procs, seqs) in enumerate([
+            ("seljoin-mf", 1, [["S1", "C1", "XO", "C1"]]),
+            ("seljoin-doif", 1, [["S1", "XN", "S1", "C1"]]),
+            ("seljoin-mf", 1, [["S1", "XO"], ["C1", "C1"]]),
+            ("seljoin-doif", 2, [["S1", "C1", "XN"], ["C1", "O"]]),
+    ]):
+        sts = [stream(q, src=n + 1, sel=True, delay=120 * n) for n, q in enumerate(seqs)]
+        out.append({"id": first_id + 50 + j, "chain": chain, "pre": "sel", "procs": procs, "timeout_ms": 20, "limit": 0, "M": 0,
+                    "neg": False, "wait_ms": WAIT_MS, "streams": sts, "directed": True})
     for j, (chain, pre, procs, seq) in enumerate([
             ("discard+join", "discard", 1, ["S1", "C1", "D"]),        # D5: run held, last event discarded by action 0
             ("discard+join", "discard", 2, ["S1", "D"]),
@@ -196,7 +219,9 @@ def analyse_stream(sc, st, res, table):
     base = {"level": "pipeline", "plugin": "join", "chain": sc["chain"], "procs": sc["procs"], "scenario": sc["id"],
             "stream": key, "seq": seq, "neg": sc["neg"], "M": sc["M"], "limit": sc["limit"],
             "break_before_join": sc["chain"] == "break+join",
-            "action_before_join": {"discard+join": "discard", "break+join": "break", "pass+join": "pass"}.get(sc["chain"], "none"),
+            "action_before_join": {"discard+join": "discard", "break+join": "break", "pass+join": "pass",
+                                   "seljoin-mf": "pass", "seljoin-doif": "pass"}.get(sc["chain"], "none"),
+            "join_selector": {"seljoin-mf": "match_fields", "seljoin-doif": "do_if"}.get(sc["chain"], "none"),
             "scenario_def": sc}
     recs = []
     stats = {"to_observed": 0, "joined": 0}
@@ -227,7 +252,7 @@ def analyse_stream(sc, st, res, table):
                 cross = True
     base.update(to_all=to_all, to_misdelivered=bool(to_mis), got=obs, cross_stream=cross)
     # a stream without discarded / broken-out events is a chain-"none" case whatever stands before the join
-    pre = sc["pre"] if ("D" in seq or "B" in seq) else "none"
+    pre = sc["pre"] if (set(seq) & {"D", "B", "XO", "XN"}) else "none"
     # Output(seq, TO) is defined for any TO; the table has the placements at which something is waiting for a
     # time-out. A time-out delivered at any other position closes nothing (every open run has the processor
     # waiting), so it is ignored for the expectation -- e.g. the synthetic time-out a repaired processor could use
@@ -336,7 +361,7 @@ def pipeline_level(ctx, binary, scs, table):
     for sc in scs:
         sc["d15_somewhere"] = False
         for st in sc["streams"]:
-            pre = sc["pre"] if ("D" in st["seq"] or "B" in st["seq"]) else "none"
+            pre = sc["pre"] if (set(st["seq"]) & {"D", "B", "XO", "XN"}) else "none"
             c0 = table.get((pre, tuple(st["seq"]), sc["neg"], sc["M"], ()))
             if c0 is not None and "D15" in c0["dev"]:
                 sc["d15_somewhere"] = True
@@ -410,10 +435,15 @@ def run(ctx):
     # validate a candidate fix before the switch is flipped in the .cfg by the fix commit)
     sw = dict(x.split("=") for x in os.environ.get("VERIF_C15_SWITCHES", "").split(",") if "=" in x)
     jsw = {k: v for k, v in sw.items() if k in ("D5_TimeoutToLastAction", "D15_BreakBypassesHold")} or None
-    ksw = {k: v for k, v in sw.items() if k.startswith(("D12_", "D16_", "D17_"))} or None
+    ksw = {k: v for k, v in sw.items() if k.startswith(("D12_", "D16_", "D17_", "D20_"))} or None
     rj = ctx.tlc_expect_ok("Join", "Join_quick.cfg" if quick else "Join_thorough.cfg", timeout=1500, deadlock=False,
                            overrides=jsw)
     ctx.tlc_expect_ok("Join", "Join_ideal.cfg", timeout=600, deadlock=False, name="Join/ideal (deviations off)")
+    # spec mutant: the selector of a busy action is evaluated -> TLC must reject it (its counterexamples are the directed
+    # selector scenarios of the pipeline-level runs)
+    rm = ctx.tlc("Join", "Join_mutsel.cfg", timeout=300, deadlock=False, name="Join/mutant M_BusyIgnoresSelector off")
+    if rm.violated != "StatementOK":
+        raise vlib.Infra("spec mutant M_BusyIgnoresSelector=FALSE was not rejected by StatementOK: %s" % rm.violated)
     rk = ctx.tlc_expect_ok("K8sMultiline", "K8sMultiline_quick.cfg" if quick else "K8sMultiline_thorough.cfg",
                            timeout=1500, deadlock=False, overrides=ksw)
     ctx.tlc_expect_ok("K8sMultiline", "K8sMultiline_ideal.cfg", timeout=600, deadlock=False,
@@ -445,7 +475,8 @@ def run(ctx):
     for m in r3["mismatches"] or []:
         recs.append({"level": "plugin", "kind": m["kind"], "plugin": m["plugin"], "as_modelled": m["as_modelled"],
                      "empty_log": m["empty_log"], "panic_class": m.get("panic_class", ""),
-                     "timeout_while_skipping": m["timeout_while_skipping"], "case": m["case"], "got": m["got"],
+                     "timeout_while_skipping": m["timeout_while_skipping"],
+                     "backslash_n_partial": m.get("backslash_n_partial", False), "case": m["case"], "got": m["got"],
                      "panic": m.get("panic", "")[:400]})
     ctx.extra["k8s_mismatch_classes"] = r3["mismatch_counts"]
 
@@ -469,7 +500,7 @@ def run(ctx):
     ctx.exhaustive = True
     ctx.rule = ("case = (class sequence over {start, continue, other, no-field, non-string [, second template's start/continue]"
                 " [, discarded / broken by the action before the join]}, negate flags, max_event_size, time-out placement), "
-                "resp. (fragment sequence over {empty, 1-char, long} x {partial, final}, max_event_size, cut-off, split size, "
+                "resp. (fragment sequence over {empty, 1-char, long, ..backslash, ..backslash+n, ..quote} x {partial, final}, max_event_size, cut-off, split size, "
                 "time-out placement), enumerated exhaustively by TLC (%d join cases, %d k8s cases), ALL replayed on the real "
                 "plugins (join %d, join_template %d, k8s %d); plus %d timed runs of the real pipeline (%d streams, %d time-out "
                 "deliveries observed). Non-trivial = the expectation contains a joined run of >= 2 events/chunks (counted by the "
